@@ -152,6 +152,38 @@ func misuseCases(r *rec.Rec) {
 	run("max-int", add(math.MaxInt), add(0), send)
 	run("min-int-plus-one", add(math.MinInt+1), add(0))
 	run("neg-max-on-empty", add(-math.MaxInt32), add(0), send)
+	// an unbalanced negative Add DURING a Send: Add(2); Send in flight; one receive; Add(-3); one more receive (the Send
+	// reaches its final check); afterwards Add(0) and Send - outcomes: Add(-3), the in-flight Send, Add(0), Send
+	{
+		c := mk()
+		c.Add(2)
+		inflight := make(chan string, 1)
+		go func() { inflight <- outcomeOf(func() { c.Send(1) }) }()
+		recv := func() bool {
+			select {
+			case <-c.C:
+				return true
+			case <-time.After(500 * time.Millisecond):
+				return false
+			}
+		}
+		r1 := recv()
+		o1 := outcomeOf(func() { c.Add(-3) })
+		r2 := recv()
+		var o2 string
+		select {
+		case o2 = <-inflight:
+		case <-time.After(time.Second):
+			o2 = "hang"
+		}
+		o3 := outcomeOf(func() { c.Add(0) })
+		o4 := outcomeOf(func() { c.Send(2) })
+		if !r1 {
+			o1 = "norecv:" + o1
+		}
+		_ = r2
+		r.Add(rec.Ev{"ev": "misuse", "case": "unbalanced-during-send", "outcomes": []string{o1, o2, o3, o4}})
+	}
 }
 
 func runCasterExec(execID int, sci any, e *Env) []rec.Ev {
